@@ -210,11 +210,20 @@ func combineTypes(types []*Type) *Type {
 	combinedT := types[0]
 	for _, t := range types[1:] {
 		if combinedT.Equals(t) {
+			// keep the Fixed flags of both: a later element may be a variable
+			combinedT = mergeFixed(combinedT, t)
 			continue
 		}
 		// types are not equal, ensure that composite types can be combined
 		if t.Fixed || combinedT.Fixed {
-			return ANY_TYPE
+			switch {
+			case combinedT.Fixed && !t.Fixed && combinedT.accepts(t): // the literal converts to the variable's type
+			case t.Fixed && !combinedT.Fixed && t.accepts(combinedT):
+				combinedT = t
+			default:
+				return ANY_TYPE
+			}
+			continue
 		}
 		if (t.Name == ARRAY || t.Name == MAP) && t.Name == combinedT.Name {
 			switch {
@@ -232,4 +241,29 @@ func combineTypes(types []*Type) *Type {
 		return ANY_TYPE
 	}
 	return combinedT
+}
+
+// hasFixed reports whether t or one of its sub types is Fixed.
+func (t *Type) hasFixed() bool {
+	for ; t != nil; t = t.Sub {
+		if t.Fixed {
+			return true
+		}
+	}
+	return false
+}
+
+// mergeFixed returns a type Equal to t and t2 (which must be Equal) that
+// is Fixed wherever t or t2 is.
+func mergeFixed(t, t2 *Type) *Type {
+	if !t2.hasFixed() || t == t2 {
+		return t
+	}
+	if !t.hasFixed() {
+		return t2
+	}
+	if t.Sub == nil || t2.Sub == nil || t == EMPTY_ARRAY || t == EMPTY_MAP {
+		return t
+	}
+	return &Type{Name: t.Name, Sub: mergeFixed(t.Sub, t2.Sub), Fixed: t.Fixed || t2.Fixed}
 }
